@@ -136,6 +136,8 @@ COSTS = st.one_of(
     st.integers(0, 12),
     st.integers(-10, 20).map(lambda e: 2.0 ** e),
     st.sampled_from([0.5, 0.5, 1.5, 0.25, 1024.0, 3.0]),
+    # very wide ranges as produced by the n^3 heuristic on language-model layers next to tiny ones (all exactly summable < 2^53)
+    st.sampled_from([50304 ** 3, 8192 ** 3, 10 ** 12, 10 ** 14, 4096 ** 3, 50 ** 3, 7]),
 )
 
 
@@ -175,7 +177,7 @@ class C17(Prop):
     id = 'C17'
     title = 'Greedy work assignment is complete, group-confined, balanced and deterministic'
     rule = ('Hypothesis draws cost dictionaries (0-12 layers x 1-3 factors in drawn insertion order; costs from {0, small ints, '
-            'cubes, dyadic floats 2^-10..2^20, a per-case tie pool}) and a partition of a drawn subset of a world of 1-16 ranks '
+            'cubes, dyadic floats 2^-10..2^20, very wide ranges such as 50304^3 next to 7, a per-case tie pool}) and a partition of a drawn subset of a world of 1-16 ranks '
             'into 1-6 groups of unequal sizes with shuffled rank order, colocate on/off. Oracle = validity by replay with '
             'backtracking over ties + explicit balance bound + purity (called twice, arguments deep-compared). Exhaustive small '
             'scope: <=2 (quick) / <=3 (thorough) layers x 2 factors with costs in {0,1,2,3}, every partition of every non-empty '
